@@ -41,6 +41,18 @@ theorem safe_pure {α} {Q : α → Prop} {a : α} (h : Q a) : SafeQ (M.pure a) Q
 theorem safe_throw {α} {Q : α → Prop} (e : Err) : SafeQ (throw e : M α) Q := by
   intro s _; trivial
 
+theorem safe_throwNoPos {α} {Q : α → Prop} (e : Err) : SafeQ (throwNoPos e : M α) Q := by
+  intro s _; trivial
+
+theorem safe_noPos {α} {m : M α} {Q : α → Prop} (h : SafeQ m Q) : SafeQ (noPos m) Q := by
+  intro s hs
+  have := h s hs
+  unfold noPos
+  cases hm : m s with
+  | ok a s' => rw [hm] at this; exact this
+  | err e s' => trivial
+  | panic => rw [hm] at this; exact this.elim
+
 theorem safe_bind {α β} {m : M α} {f : α → M β} {Q' : α → Prop} {Q : β → Prop}
     (h1 : SafeQ m Q') (h2 : ∀ a, Q' a → SafeQ (f a) Q) : SafeQ (M.bind m f) Q := by
   intro s hs
@@ -197,6 +209,7 @@ macro_rules
     first
     | assumption
     | exact safe_throw _
+    | exact safe_throwNoPos _
     | exact safe_push _
     | exact safe_popValue
     | exact safe_popIgnore
@@ -221,6 +234,7 @@ macro_rules
     | exact safe_liftE _
     | (apply safe_pure; first | trivial | assumption | (simp_all; done))
     | (apply safe_pushCall; first | assumption | omega)
+    | (apply safe_noPos; safe_tac)
     | (apply safe_bind
        · safe_tac
        · intro _ _; safe_tac)
